@@ -1721,7 +1721,7 @@ pub fn total(cx: &mut Ctx) {
 // C14: conversions and f-strings
 
 pub fn conv(cx: &mut Ctx) {
-    let convs = ["int", "uint", "double", "float", "string", "bytes", "bool", "type", "dyn"];
+    let convs = ["int", "uint", "double", "float", "string", "bytes", "bool", "type", "dyn", "timestamp", "duration"];
     let mut pool = grid_numeric();
     pool.extend(non_numeric());
     pool.extend(time_edges());
@@ -1736,6 +1736,10 @@ pub fn conv(cx: &mut Ctx) {
     }
     for f in convs {
         for v in pool.iter() {
+            // timestamp(null) is the zero-argument form after the dispatcher's null padding (a recorded finding of C15/C16)
+            if (f == "timestamp" || f == "duration") && *v == V::Null {
+                continue;
+            }
             let mut c = cx.case(call(f, vec![id("x")]));
             c.bind.insert("x".into(), v.clone());
             c.forms = forms(&["bound", "lit"]);
@@ -1828,9 +1832,11 @@ pub fn conv(cx: &mut Ctx) {
             continue;
         }
         // the f-string itself (exact where string() is exact) ...
+        // ... and it is the concatenation of string(e): same value or the same failure, bound and as literals
         let mut c1 = cx.case(T::FStr(segs.clone()));
         c1.bind = c.bind.clone();
-        c1.forms = forms(&["bound", "lit"]);
+        c1.forms = forms(&["bound", "lit", "alt", "altlit"]);
+        c1.extra = serde_json::json!({"same": true, "alt": concat.clone().unwrap().to_json()});
         cx.out(c1);
         // ... and the defining equation, evaluated by the implementation on both sides
         let mut c2 = cx.case(bin("==", T::FStr(segs), concat.unwrap()));
